@@ -52,9 +52,34 @@ namespace
             p.kind = "port-empty";
             break;
         case 10: {
-            long v = c.coin(128) ? 65536 + c.pick(4) : c.range(65536, 4000000);
-            p.text = std::to_string(v);
-            p.kind = "port-too-large";
+            if (c.coin(170))
+            {
+                long v = c.coin(128) ? 65536 + c.pick(4) : c.range(65536, 4000000);
+                p.text = std::to_string(v);
+                p.kind = "port-too-large";
+            }
+            else
+            {
+                // out of range, but equal to a valid port once narrowed to 16, 32 or 64 bits:
+                // k * 2^w + q with q in 0..65535 (k of either sign)
+                static const unsigned ws[] = { 16, 32, 32, 64 };
+                static const long qs[]     = { 0, 1, 80, 443, 8080, 65535 };
+                unsigned w                 = ws[c.pick(4)];
+                __int128 v                 = (__int128)(c.range(1, 3)) << w;
+                if (c.coin(80))
+                    v = -v;
+                v += c.coin(128) ? qs[c.pick(6)] : long(c.range(0, 65535));
+                bool neg = v < 0;
+                unsigned __int128 a = neg ? (unsigned __int128)(-v) : (unsigned __int128)v;
+                std::string t;
+                while (a)
+                {
+                    t.insert(t.begin(), char('0' + int(a % 10)));
+                    a /= 10;
+                }
+                p.text = (neg ? "-" : "") + t;
+                p.kind = "port-wraps-to-valid";
+            }
             break;
         }
         case 11:
